@@ -1,7 +1,7 @@
 """Per-property plan: which engines run besides the contract/lemma obligations tagged with the property."""
 
 PLAN = {
-    'C01': dict(level='proof', engines=[]),
+    'C01': dict(level='proof', engines=['sumlib']),
     'C02': dict(level='proof', engines=[]),
     'C03': dict(level='proof', engines=['bundles']),
     'C04': dict(level='proof', engines=['keynative', 'matchnative']),
@@ -18,6 +18,7 @@ PLAN = {
     'C11': dict(level='proof', engines=['chordnative']),
     'C13': dict(level='proof', engines=['intervalsnative']),
     'C14': dict(level='proof', engines=[]),
+    'C18': dict(level='proof', engines=['sumlib', 'multipitchnative', 'matchnative']),
     'C19': dict(level='proof', engines=['sepstruct', 'bundles']),
     'C15': dict(level='proof', engines=['frames'], assumptions=['A3', 'A4', 'A5', 'A6', 'A7']),
 }
